@@ -81,6 +81,7 @@ type Thread struct {
 	sendReg    map[*ChanV]bool
 	timerWake  func()
 	timerFired bool
+	quiesced   bool
 }
 
 type Machine struct {
